@@ -51,7 +51,9 @@ func cmdFunc(args []string) {
 	keep := fs.String("keep", "", "directory to keep VC files in")
 	verbose := fs.Bool("v", false, "")
 	only := fs.String("only", "", "only discharge obligations whose name contains this")
+	retry := fs.Bool("retry", false, "retry undecided obligations with a longer time limit")
 	fs.Parse(args)
+	noRetry = !*retry
 	t0 := time.Now()
 	v, err := Load(*repo, strings.Split(*pkg, ","))
 	if err != nil {
